@@ -455,7 +455,7 @@ func run(c Case) (o hx.Outcome) {
 		o.Class("error-or-missing-with-waiter")
 	}
 	o.Nontrivial = waiters > 0 && (lateJoin || badWithWaiter)
-	o.Desc = map[string]any{"queue": c.Queue, "ops": c.Ops, "outcomes": c.Outcomes, "steps": st.Clock, "upstream_calls": len(up.calls), "waiters": waiters, "late_join": lateJoin}
+	o.Desc = map[string]any{"queue": c.Queue, "ops": c.Ops, "outcomes": c.Outcomes, "steps": st.Clock, "upstream_calls": len(up.calls), "waiters": waiters, "late_join": lateJoin, "release_order": traceKey(st.Trace)}
 	o.Key = fmt.Sprintf("%s/%v/%v/%v", c.Queue, c.Ops, c.Outcomes, traceKey(st.Trace))
 	o.Observed = map[string]any{"branch": st.Branch}
 	lastBranch = st.Branch
